@@ -1,0 +1,26 @@
+package poaante
+
+import (
+	sdk "github.com/cosmos/cosmos-sdk/types"
+	"github.com/cosmos/cosmos-sdk/x/authz"
+	govv1 "github.com/cosmos/cosmos-sdk/x/gov/types/v1"
+	"github.com/cosmos/cosmos-sdk/x/group"
+)
+
+// nestedMsgs returns the messages carried by msg when msg is one of the message
+// types that can execute other messages (immediately or once a proposal passes).
+func nestedMsgs(msg sdk.Msg) ([]sdk.Msg, bool, error) {
+	switch m := msg.(type) {
+	case *authz.MsgExec:
+		msgs, err := m.GetMessages()
+		return msgs, true, err
+	case *group.MsgSubmitProposal:
+		msgs, err := m.GetMsgs()
+		return msgs, true, err
+	case *govv1.MsgSubmitProposal:
+		msgs, err := m.GetMsgs()
+		return msgs, true, err
+	}
+
+	return nil, false, nil
+}
